@@ -103,7 +103,7 @@ def main(argv=None):
         if outs is not None:
             for c, o in zip(cases[:len(wit)], outs[:len(wit)]):
                 ok, why = mod.compare_native(c, o)
-                if ok and o.get('holds') is False and not viol:
+                if ok and o.get('holds') is False and not viol and getattr(mod, 'NATIVE_CONFIRM', True):
                     ok, why = False, f'native oracle rejects a case on which every solver obligation held: {o.get("why")}'
                 if ok: validated += 1
                 else: inconcl.append(f'witness mismatch between interpreter and native code: {why} case={json.dumps(c)[:300]}')
@@ -115,7 +115,7 @@ def main(argv=None):
     for v in viol:
         k = next((f for f in known if f.get('property') == pid and f.get('key') and f['key'] in (v.key + ' ' + v.detail + ' ' + json.dumps(getattr(v, 'case', None)))), None)
         if k: known_hit.append((k, v)); continue
-        if getattr(mod, 'NATIVE', None) and not a.no_native and getattr(v, 'case', None) is not None and getattr(v, 'confirmed', None) is False:
+        if getattr(mod, 'NATIVE', None) and getattr(mod, 'NATIVE_CONFIRM', True) and not a.no_native and getattr(v, 'case', None) is not None and getattr(v, 'confirmed', None) is False:
             inconcl.append(f'counterexample did not reproduce natively ({v.label}); encoding or stub is wrong: {json.dumps(v.case)[:400]} native={json.dumps(getattr(v, "native", None))[:300]}'); continue
         new_viol.append(v)
     wall = time.time() - t0
